@@ -16,6 +16,10 @@ CONSTANTS NTasks, MaxT, MD, MaxCalls, DueCheck, AtomicHandlers,
           RepIv,          \* interval of Task.Repeat calls in clock ticks (0: no Repeat calls are explored)
           ResetUnderLock, \* executeAt is cleared together with the start decision, under the task lock (TRUE = repaired
                           \* tree; FALSE = pinned tree: cleared by the launched goroutine without the lock, finding F-C07-4)
+          QueueElemCheck, \* runWithLocking ignores the queue handler's pop when the task no longer holds the popped queue element
+                          \* (TRUE = repaired tree; FALSE: finding F-C07-3)
+          SchedElemCheck, \* runWithLocking ignores the schedule handler's decision when the task no longer holds the schedule entry
+                          \* the handler acted on (TRUE = repaired tree; FALSE: finding F-C07-5, a task run twice for one submission)
           Fault   \* "none", or a plausible regression whose counterexamples become adversarial scripts:
                   \* "cancelctx" (the start check trusts the task context, which is refreshed after a run, instead of the
                   \* canceled flag), "overtimenodue" (the due re-check guards only the promote branch),
@@ -44,10 +48,21 @@ Init ==
            armed |-> -1,                  \* time the schedule handler's timer is armed for (-1: waits for a notification)
            notif |-> FALSE,               \* notifyTaskScheduler (addToSchedule notifies, removeFromQueues does not)
            ctxc |-> AllF(FALSE),          \* the task context is cancelled (refreshed after every run)
-           rep |-> AllF(0) ]              \* Task.repeat: interval after which a finished run is scheduled again (0: none)
+           rep |-> AllF(0),               \* Task.repeat: interval after which a finished run is scheduled again (0: none)
+           sgen |-> AllF(0),              \* identity of the task's schedule entry: counts the entries created for it (only
+                                          \* tracked when handler decisions are split, AtomicHandlers = FALSE)
+           qgen |-> AllF(0), pgen |-> AllF(0),   \* likewise for the elements of the normal and the prioritized queue
+           qg |-> [k |-> "-", n |-> 0],   \* the element the queue handler popped: list and number
+           sg |-> 0,                      \* the entry (its number) the schedule handler acted on when it decided to run a task
+           open |-> AllF(FALSE),          \* ghost: a submission was made since the task's last start (Schedule(zero time) leaves it
+                                          \* as it is: whether unscheduling withdraws a queue submission is not documented)
+           extra |-> FALSE ]              \* ghost: a run was started for a task that had no submission pending              \* Task.repeat: interval after which a finished run is scheduled again (0: none)
   /\ last = Lbl("init", 0, "-", 0)
 
 Remove(q, t) == SelectSeq(q, LAMBDA x : x # t)
+\* a new schedule entry is created iff the task holds none
+Gen(r, t) == IF AtomicHandlers \/ r.se[t] THEN r.sgen ELSE [r.sgen EXCEPT ![t] = @ + 1]
+GenQ(r, t, has, g) == IF AtomicHandlers \/ has[t] THEN g ELSE [g EXCEPT ![t] = @ + 1]
 InSeq(q, t) == \E i \in 1..Len(q) : q[i] = t
 RECURSIVE Ins(_, _, _)
 Ins(q, t, ea) == IF q = <<>> THEN <<t>>
@@ -57,20 +72,23 @@ Ins(q, t, ea) == IF q = <<>> THEN <<t>>
 \* ------------------------------------------------------------------ API calls (t.lock held for the whole call)
 \* prepForQueueing: executeAt = now + maxDelay, addToSchedule(overtime = TRUE)
 Prep(r, t) == LET ea == [r.execAt EXCEPT ![t] = r.now + MD] IN
-    [r EXCEPT !.execAt = ea, !.overtime[t] = TRUE, !.sched = Ins(Remove(r.sched, t), t, ea), !.se[t] = TRUE, !.notif = TRUE]
+    [r EXCEPT !.execAt = ea, !.overtime[t] = TRUE, !.sched = Ins(Remove(r.sched, t), t, ea), !.se[t] = TRUE, !.notif = TRUE,
+              !.sgen = Gen(r, t)]
 
 Submit(r, t, kind) ==
     LET r1 == Prep(r, t)
-        r2 == CASE kind = "queue" -> [r1 EXCEPT !.queue = IF r1.qe[t] THEN @ ELSE Append(@, t), !.qe[t] = TRUE]
-                [] kind = "prio"  -> [r1 EXCEPT !.prio = IF r1.pe[t] THEN @ ELSE Append(@, t), !.pe[t] = TRUE]
+        r2 == CASE kind = "queue" -> [r1 EXCEPT !.queue = IF r1.qe[t] THEN @ ELSE Append(@, t), !.qe[t] = TRUE,
+                                                 !.qgen = GenQ(r1, t, r1.qe, r1.qgen)]
+                [] kind = "prio"  -> [r1 EXCEPT !.prio = IF r1.pe[t] THEN @ ELSE Append(@, t), !.pe[t] = TRUE,
+                                                 !.pgen = GenQ(r1, t, r1.pe, r1.pgen)]
                 [] kind = "asap"  -> [r1 EXCEPT !.prio = IF r1.pe[t] THEN (IF InSeq(@, t) THEN <<t>> \o Remove(@, t) ELSE @)
                                                                      ELSE <<t>> \o @,
-                                                 !.pe[t] = TRUE]
+                                                 !.pe[t] = TRUE, !.pgen = GenQ(r1, t, r1.pe, r1.pgen)]
     IN [r2 EXCEPT !.signal = TRUE]
 
 ApiSubmit(t, kind) ==
     /\ s.calls < MaxCalls /\ ~s.canceled[t]
-    /\ s' = [Submit(s, t, kind) EXCEPT !.calls = @ + 1, !.subKind[t] = "queued",
+    /\ s' = [Submit(s, t, kind) EXCEPT !.calls = @ + 1, !.subKind[t] = "queued", !.open[t] = TRUE,
                                        !.subAfter[t] = s.running[t]]
     /\ last' = Lbl("api", t, kind, 0)
 
@@ -78,7 +96,8 @@ ApiSchedule(t, at) ==
     /\ s.calls < MaxCalls /\ ~s.canceled[t] /\ at > s.now /\ at <= MaxT
     /\ LET ea == [s.execAt EXCEPT ![t] = at] IN
        s' = [s EXCEPT !.calls = @ + 1, !.execAt = ea, !.sched = Ins(Remove(s.sched, t), t, ea), !.se[t] = TRUE, !.notif = TRUE,
-                      !.subKind[t] = IF s.subKind[t] = "queued" THEN "queued" ELSE "sched",
+                      !.sgen = Gen(s, t),
+                      !.subKind[t] = IF s.subKind[t] = "queued" THEN "queued" ELSE "sched", !.open[t] = TRUE,
                       !.schedAt[t] = at, !.subAfter[t] = s.running[t]]
     /\ last' = Lbl("api", t, "schedule", at)
 
@@ -95,7 +114,8 @@ ApiRepeat(t) ==
     /\ RepIv > 0 /\ s.calls < MaxCalls /\ ~s.canceled[t]
     /\ LET ea == [s.execAt EXCEPT ![t] = s.now + RepIv] IN
        s' = [s EXCEPT !.calls = @ + 1, !.rep[t] = RepIv, !.execAt = ea, !.sched = Ins(Remove(s.sched, t), t, ea), !.se[t] = TRUE,
-                      !.notif = TRUE, !.subKind[t] = IF s.subKind[t] = "queued" THEN "queued" ELSE "sched",
+                      !.sgen = Gen(s, t),
+                      !.notif = TRUE, !.subKind[t] = IF s.subKind[t] = "queued" THEN "queued" ELSE "sched", !.open[t] = TRUE,
                       !.schedAt[t] = s.now + RepIv, !.subAfter[t] = s.running[t]]
     /\ last' = Lbl("api", t, "repeat", RepIv)
 \* Repeat(0): "will disable repeating, but won't change the current schedule"
@@ -131,6 +151,7 @@ RWL(r, t) ==
        ELSE [go |-> TRUE, r |-> [r1 EXCEPT !.executing[t] = (Fault # "lateexecuting"), !.startedCanceled = @ \/ r.canceled[t],
                                            !.execAt[t] = IF ResetUnderLock THEN 0 ELSE @,
                                            !.early = @ \/ (r.subKind[t] = "sched" /\ r.now < r.schedAt[t]),
+                                           !.extra = @ \/ ~r.open[t], !.open[t] = FALSE,
                                            !.subKind[t] = "none", !.subAfter[t] = FALSE]]
 
 \* queueWg.Add(1); go executeWithLocking
@@ -143,12 +164,19 @@ Launch(r, t) == [r EXCEPT !.overlap = @ \/ r.running[t], !.running[t] = TRUE, !.
 QWake == /\ s.qh = "idle" /\ s.signal
          /\ s' = [s EXCEPT !.signal = FALSE, !.qh = "wgwait"] /\ last' = Lbl("qh", 0, "wake", 0)
 QPop == /\ s.qh = "wgwait" /\ \A t \in Tasks : ~s.slot[t]
-        /\ s' = IF s.prio # <<>> THEN [s EXCEPT !.qt = Head(s.prio), !.prio = Tail(@), !.qh = "rwl"]
-                ELSE IF s.queue # <<>> THEN [s EXCEPT !.qt = Head(s.queue), !.queue = Tail(@), !.qh = "rwl"]
+        /\ s' = IF s.prio # <<>> THEN [s EXCEPT !.qt = Head(s.prio), !.prio = Tail(@), !.qh = "rwl",
+                                                   !.qg = [k |-> "p", n |-> s.pgen[Head(s.prio)]]]
+                ELSE IF s.queue # <<>> THEN [s EXCEPT !.qt = Head(s.queue), !.queue = Tail(@), !.qh = "rwl",
+                                                       !.qg = [k |-> "q", n |-> s.qgen[Head(s.queue)]]]
                 ELSE [s EXCEPT !.qt = None, !.qh = "idle"]
         /\ last' = Lbl("qh", 0, "pop", 0)
+\* t.runWithLocking(e, nil): void when neither queue pointer of the task is the popped element e any more
+PoppedHeld == \/ s.qg.k = "q" /\ s.qe[s.qt] /\ s.qgen[s.qt] = s.qg.n
+              \/ s.qg.k = "p" /\ s.pe[s.qt] /\ s.pgen[s.qt] = s.qg.n
 QRwl == /\ s.qh = "rwl"
-        /\ LET x == RWL(s, s.qt) IN s' = [x.r EXCEPT !.qh = IF x.go THEN "launch" ELSE "wgwait"]
+        /\ IF QueueElemCheck /\ ~AtomicHandlers /\ ~PoppedHeld
+           THEN s' = [s EXCEPT !.qh = "wgwait"]
+           ELSE LET x == RWL(s, s.qt) IN s' = [x.r EXCEPT !.qh = IF x.go THEN "launch" ELSE "wgwait"]
         /\ last' = Lbl("qh", s.qt, "rwl", 0)
 QLaunch == /\ s.qh = "launch" /\ s' = [Launch(s, s.qt) EXCEPT !.qh = "wgwait"] /\ last' = Lbl("qh", s.qt, "launch", 0)
 
@@ -169,7 +197,7 @@ SFront == /\ s.sh = "fired"
                        \* acting on an entry that is not due: an only-scheduled task is promoted before its time
                        LET e == s.early \/ (s.subKind[t] = "sched" /\ s.schedAt[t] > s.now) IN
                        \* running a queued task directly although its max delay has not expired
-                       IF s.overtime[t] THEN [s EXCEPT !.st = t, !.overtime[t] = FALSE, !.sh = "rwl", !.early = e,
+                       IF s.overtime[t] THEN [s EXCEPT !.st = t, !.overtime[t] = FALSE, !.sh = "rwl", !.early = e, !.sg = s.sgen[t],
                                                       !.earlyOT = @ \/ (s.execAt[t] > s.now)]
                                         ELSE [s EXCEPT !.st = t, !.overtime[t] = TRUE, !.sh = "asap", !.early = e]
           /\ last' = Lbl("sh", 0, "front", 0)
@@ -180,8 +208,11 @@ SAsap == /\ s.sh = "asap"
                           \* its scheduled time has come: from now on it waits in the queue like a queued task
                           !.subKind[s.st] = IF s.subKind[s.st] = "none" THEN "none" ELSE "queued"]
          /\ last' = Lbl("sh", s.st, "asap", 0)
+\* t.runWithLocking(nil, e): void when the task no longer holds the entry e the decision was taken on
 SRwl == /\ s.sh = "rwl"
-        /\ LET x == RWL(s, s.st) IN s' = [x.r EXCEPT !.sh = IF x.go THEN "launch" ELSE "arm"]
+        /\ IF SchedElemCheck /\ ~AtomicHandlers /\ (~s.se[s.st] \/ s.sgen[s.st] # s.sg)
+           THEN s' = [s EXCEPT !.sh = "arm"]
+           ELSE LET x == RWL(s, s.st) IN s' = [x.r EXCEPT !.sh = IF x.go THEN "launch" ELSE "arm"]
         /\ last' = Lbl("sh", s.st, "rwl", 0)
 SLaunch == /\ s.sh = "launch" /\ s' = [Launch(s, s.st) EXCEPT !.sh = "arm"] /\ last' = Lbl("sh", s.st, "launch", 0)
 
@@ -193,7 +224,8 @@ End(t) == /\ s.running[t]
                  ea == [s.execAt EXCEPT ![t] = s.now + s.rep[t]]
              IN s' = IF ~s.canceled[t] /\ s.rep[t] # 0 /\ s.execAt[t] = 0
                      THEN [r1 EXCEPT !.execAt = ea, !.sched = Ins(Remove(s.sched, t), t, ea), !.se[t] = TRUE, !.notif = TRUE,
-                                     !.subKind[t] = "sched", !.schedAt[t] = s.now + s.rep[t], !.subAfter[t] = FALSE]
+                                     !.sgen = Gen(s, t),
+                                     !.subKind[t] = "sched", !.schedAt[t] = s.now + s.rep[t], !.subAfter[t] = FALSE, !.open[t] = TRUE]
                      ELSE r1
           /\ last' = Lbl("end", t, "-", 0)
 
@@ -215,6 +247,8 @@ NoEarlyStart  == ~s.early
 NoLostSubmission == ~s.lost
 NoStartAfterCancel == ~s.startedCanceled
 NoEarlyOvertime == ~s.earlyOT
+\* "not more often than it was submitted": no run is started for a task without a pending submission
+NoExtraRun == ~s.extra
 Quiescent == /\ s.qh = "idle" /\ ~s.signal /\ s.sh = "wait" /\ ~s.notif /\ \A t \in Tasks : ~s.running[t]
              /\ s.now = MaxT /\ (s.sched = <<>> \/ s.execAt[Head(s.sched)] > s.now)
 \* at quiescence nothing that was submitted and not cancelled is forgotten: it is still in the schedule for later
